@@ -124,7 +124,9 @@ def one(binary, rec, idx, seed, work, pem):
     opts["log-level"] = c["level"]
     opts["log-http"] = c["mode"]
     user, item = None, c["item"]
+    refusal = c.get("refusal", "none")
     secrets = [secret]
+    held = None
     rendering = None
     tls = False
     up_port = dead if c["traffic"] == "upstream-error" else upstream.port
@@ -146,13 +148,25 @@ def one(binary, rec, idx, seed, work, pem):
             opts["proxy"] = "http://127.0.0.1:%d" % up_port
             opts["credentials"] = "%s:%s@127.0.0.1:%d" % (user, secret, up_port)
             rendering = "%s:xxxxx@127.0.0.1:%d" % (user, up_port)
+        elif refusal.startswith("dup-"):
+            # a second entry with its own password that clashes with the first: start-up is refused, and the
+            # refusal must not name either password
+            secret2 = secret_for(c["shape"], rng)
+            secrets.append(secret2)
+            hp = {"dup-exact": "127.0.0.1:%d" % origin.port, "dup-host": "*:%d" % origin.port,
+                  "dup-port": "127.0.0.1:0", "dup-global": "*:0"}[refusal]
+            opts["credentials"] = "%s:%s@%s,duser:%s@%s" % (user, secret, hp, secret2, hp)
+            rendering = "%s:xxxxx@%s" % (user, hp)
         else:
             opts["credentials"] = "%s:%s@127.0.0.1:%d" % (user, secret, origin.port)
             rendering = "%s:xxxxx@127.0.0.1:%d" % (user, origin.port)
     else:
         cert_b64 = base64.b64encode(open(pem["cert"], "rb").read()).decode()
-        key_b64 = base64.b64encode(open(pem["key"], "rb").read()).decode()
-        key_body = "".join(l for l in open(pem["key"]).read().splitlines() if "-----" not in l)
+        keyp = pem["key"]
+        if refusal == "key-mismatch":
+            keyp = os.path.join(os.path.dirname(pem["key"]), "mitm-ca.key")   # a valid key of another pair
+        key_b64 = base64.b64encode(open(keyp, "rb").read()).decode()
+        key_body = "".join(l for l in open(keyp).read().splitlines() if "-----" not in l)
         secrets = [key_b64, key_body[:48], key_b64[40:120]]
         if item == "mitm-ca":
             opts["mitm"] = "true"
@@ -165,6 +179,12 @@ def one(binary, rec, idx, seed, work, pem):
             opts["tls-key-file"] = "data:base64," + key_b64
             rendering = "tls-key-file=data:xxxxx"
             tls = True
+    if refusal == "bad-address":
+        held = socket.socket()
+        held.bind(("127.0.0.1", addr))
+        held.listen(1)            # the listen address is taken: start-up fails after the configuration was accepted
+    elif refusal == "missing-pac":
+        opts["pac"] = os.path.join(work, "no-such-%d.pac" % idx)
     args = [binary, "run"]
     if c["form"] == "flag":
         for k, v in opts.items():
@@ -188,6 +208,9 @@ def one(binary, rec, idx, seed, work, pem):
         for _ in range(100):
             if p.poll() is not None:
                 break
+            if held is not None:
+                time.sleep(0.05)
+                continue
             try:
                 socket.create_connection(("127.0.0.1", addr), timeout=0.2).close()
                 socket.create_connection(("127.0.0.1", api), timeout=0.2).close()
@@ -197,6 +220,7 @@ def one(binary, rec, idx, seed, work, pem):
                 time.sleep(0.05)
         if not up:
             res["skip"] = "configuration rejected at start-up"
+            res["refused"] = p.poll() is not None
             sinks["log"] = open(logp, errors="replace").read()
         else:
             pa = ""
@@ -231,6 +255,8 @@ def one(binary, rec, idx, seed, work, pem):
                 p.kill()
         origin.close()
         upstream.close()
+        if held is not None:
+            held.close()
     sinks["log"] = open(logp, errors="replace").read()
     if "panic:" in sinks["log"] or "goroutine " in sinks["log"] and "fatal error" in sinks["log"]:
         res["ok"], res["why"], res["sink"] = False, "process crashed", "log"
@@ -243,6 +269,7 @@ def one(binary, rec, idx, seed, work, pem):
                   ("base64", base64.b64encode(s.encode()).decode())]
         if user:
             forms.append(("base64(user:secret)", base64.b64encode(("%s:%s" % (user, s)).encode()).decode()))
+    res["refusal_line"] = next((l[:200] for l in sinks["log"].splitlines() if "fatal error" in l or l.startswith("Error:")), None)
     for name, text in sinks.items():
         for kind, f in forms:
             if len(f) >= 6 and f in text:
@@ -266,7 +293,8 @@ def run(ctx):
     q = ctx.tier == "quick"
     ctx.rule = ("Redaction.tla enumerates secret-bearing item (basic-auth, api-basic-auth, proxy userinfo, credentials, inline MITM CA key, "
                 "inline TLS key) x input form (flag, environment, YAML file) x log level x log-http mode x secret shape (alnum, needs "
-                "escaping, colon, at-sign, slash, percent, long) x traffic (plain, CONNECT, refused, upstream error) with the expected "
+                "escaping, colon, at-sign, slash, percent, long) x traffic (plain, CONNECT, refused, upstream error) x start-up refusal (none, clashing "
+                "--credentials entries of four kinds each with its own password, listen address taken, missing PAC file, key of another pair) with the expected "
                 "redacted rendering; the real binary is built from the working tree and started per configuration, traffic is driven, and "
                 "start-up log, request log lines, /configz and client-visible responses are scanned for the secret literally, percent- / "
                 "query-encoded and base64-encoded (alone and as user:secret) and for the rendering. Non-trivial = all.")
@@ -279,6 +307,9 @@ def run(ctx):
     with ThreadPoolExecutor(max_workers=10) as ex:
         outs = list(ex.map(lambda ir: one(fwd, ir[1], ir[0], ctx.seed, ctx.work, pem), enumerate(recs)))
     skipped = 0
+    want_refused = [r for r in outs if r["c"].get("refusal", "none") != "none"]
+    if want_refused and not any(r.get("refused") for r in want_refused if r["c"]["refusal"].startswith("dup-")):
+        raise vlib.Infra("no clashing --credentials configuration was refused at start-up: the refusal path was not exercised")
     for r in outs:
         ctx.evaluations += 1
         c = r["c"]
